@@ -1,7 +1,7 @@
 (* Props/C11.v — property C11: I/O failures surface as errors, never as panics or wrong results. *)
 From Coq Require Import ZArith.
 From ZipV Require Import Base.Bytes Base.Outcome Gen.CompressionGen Gen.WriteGen Model.Readers Model.Reader Model.Writer
-     Proofs.FaultProofs.
+     Model.WriterCalls Proofs.FaultProofs Proofs.WriterInv.
 Open Scope N_scope.
 
 (* the sink primitives: a failing call is an error of the primitive, never a panic, and leaves the bytes alone *)
@@ -21,3 +21,16 @@ Theorem C11_chunks_propagate : forall cs d d' r, dev_write_chunks d cs = (d', r)
   match r with Panic _ => False | _ => True end.
 Proof. exact dev_write_chunks_no_panic. Qed.
 Print Assumptions C11_chunks_propagate.
+
+(* under ANY failure plan of the sink (hard errors and short writes at arbitrary calls, any number of them), no
+   writer call of any program panics -- neither the call in which a failure strikes, nor any later call, nor finish,
+   nor the final drop *)
+Theorem C11_no_panic_under_faults : forall enc crc plan calls s' results,
+  Forall valid_call calls -> run_calls enc crc (new_writer plan) (calls ++ [KDrop]) = (s', results) ->
+  Forall (fun r => is_panic r = false) results.
+Proof.
+  intros enc crc plan calls s' results Hv H.
+  refine (proj1 (run_calls_no_panic enc crc (calls ++ [KDrop]) _ _ _ (inv_new plan) _ H)).
+  apply Forall_app. split; [exact Hv|]. constructor; [exact I|constructor].
+Qed.
+Print Assumptions C11_no_panic_under_faults.
